@@ -8,6 +8,8 @@ import (
 	"sort"
 	"strings"
 	"time"
+
+	"golang.org/x/tools/go/ssa"
 )
 
 func main() {
@@ -20,6 +22,50 @@ func main() {
 		os.Exit(cmdCheck(os.Args[2:]))
 	case "dump":
 		os.Exit(cmdDump(os.Args[2:]))
+	case "effects":
+		// govc effects <func> [substring]: the may-write summary of a function (development aid)
+		w, err := loadWorld("/repo", "/verif/spec")
+		if err != nil {
+			fmt.Fprintln(os.Stderr, err)
+			os.Exit(2)
+		}
+		fn := w.lookupFunc(os.Args[2])
+		if fn == nil {
+			fmt.Println("no such function")
+			os.Exit(2)
+		}
+		eff := w.funcEffects(fn)
+		var ps []string
+		for p := range eff.prefixes {
+			if len(os.Args) < 4 || strings.Contains(p, os.Args[3]) {
+				ps = append(ps, p)
+			}
+		}
+		sort.Strings(ps)
+		fmt.Printf("all=%v allocs=%v %d components\n%s\n", eff.all, eff.allocs, len(eff.prefixes), strings.Join(ps, "\n"))
+		if len(os.Args) >= 5 {
+			// who introduces the component: direct writers among the transitive callees
+			seen := map[*ssa.Function]bool{}
+			var walk func(f *ssa.Function, path []string)
+			walk = func(f *ssa.Function, path []string) {
+				if seen[f] || len(path) > 12 {
+					return
+				}
+				seen[f] = true
+				info := w.effInfos[f]
+				if info == nil {
+					return
+				}
+				if info.direct.prefixes[os.Args[4]] {
+					fmt.Println("WRITER:", strings.Join(append(path, funcKey(f)), " -> "))
+				}
+				for c := range info.callees {
+					walk(c, append(path, funcKey(f)))
+				}
+			}
+			walk(fn, nil)
+		}
+		os.Exit(0)
 	default:
 		fmt.Fprintln(os.Stderr, "unknown command", os.Args[1])
 		os.Exit(2)
@@ -71,9 +117,11 @@ func cmdCheck(args []string) int {
 	fs.StringVar(&cfg.tier, "tier", "quick", "quick|thorough")
 	fs.BoolVar(&cfg.verbose, "v", false, "verbose")
 	fs.StringVar(&cfg.only, "only", "", "only functions whose name contains this")
+	kindF := fs.String("kind", "", "only obligations of these kinds (comma separated; development aid)")
 	fs.StringVar(&cfg.outDir, "out", "/verif/out", "scratch directory")
 	fs.StringVar(&cfg.repo, "repo", "/repo", "repository")
 	fs.IntVar(&cfg.par, "par", 9, "parallel obligations")
+	tmo := fs.Int("timeout", 0, "solver timeout in ms (overrides the tier's)")
 	if len(args) < 1 {
 		fmt.Fprintln(os.Stderr, "usage: govc check <property>")
 		return 2
@@ -89,6 +137,9 @@ func cmdCheck(args []string) int {
 	cfg.timeoutMs = 10000
 	if cfg.tier == "thorough" {
 		cfg.timeoutMs = 60000
+	}
+	if *tmo > 0 {
+		cfg.timeoutMs = *tmo
 	}
 	t0 := time.Now()
 	w, err := loadWorld(cfg.repo, "/verif/spec")
@@ -116,9 +167,28 @@ func cmdCheck(args []string) int {
 			units = append(units, w.verifyLemma(l))
 		}
 	}
+	for _, sp := range w.cs.sinks {
+		if prop == "" || contains(sp.Props, prop) {
+			if cfg.only != "" && !strings.Contains("sinks", cfg.only) {
+				continue
+			}
+			units = append(units, w.verifySinks(sp))
+		}
+	}
+	for _, cl := range w.cs.classified {
+		if prop == "" || contains(cl.Props, prop) {
+			if cfg.only != "" && !strings.Contains(cl.Type, cfg.only) {
+				continue
+			}
+			units = append(units, w.verifyClassified(cl))
+		}
+	}
 	var obls []*Obligation
 	for _, u := range units {
 		for _, ob := range u.Obls {
+			if *kindF != "" && !strings.Contains(","+*kindF+",", ","+ob.Kind+",") {
+				continue
+			}
 			if prop == "" || len(ob.Props) == 0 || contains(ob.Props, prop) {
 				obls = append(obls, ob)
 			}
